@@ -39,8 +39,24 @@ def sh(cmd, timeout=None, env=None, cwd=None, check=True, capture=True):
 # ----------------------------------------------------------------------------------------------
 # building (always from /repo's current working tree: the harness has a path dependency on it)
 # ----------------------------------------------------------------------------------------------
+def build_mock():
+    """stand-in for wasm_bindgen (C17): two tiny crates compiled with rustc into /verif/out/mock"""
+    d = os.path.join(OUT, "mock")
+    os.makedirs(d, exist_ok=True)
+    src = os.path.join(HARNESS, "mock")
+    so, rlib = os.path.join(d, "libwasm_bindgen_macro.so"), os.path.join(d, "libwasm_bindgen.rlib")
+    newest = max(os.path.getmtime(os.path.join(src, f)) for f in os.listdir(src))
+    if os.path.exists(so) and os.path.exists(rlib) and min(os.path.getmtime(so), os.path.getmtime(rlib)) > newest:
+        return
+    sh(["rustc", "--edition", "2021", "--crate-type", "proc-macro", "--crate-name", "wasm_bindgen_macro",
+        os.path.join(src, "wasm_bindgen_macro.rs"), "--out-dir", d], timeout=600)
+    sh(["rustc", "--edition", "2021", "--crate-type", "rlib", "--crate-name", "wasm_bindgen",
+        os.path.join(src, "wasm_bindgen.rs"), "--extern", "wasm_bindgen_macro=" + so, "--out-dir", d], timeout=600)
+
+
 def build_harness():
     t = time.time()
+    build_mock()
     lock = os.path.join(HARNESS, "Cargo.lock")
     if not os.path.exists(lock):
         shutil.copy("/repo/Cargo.lock", lock)
@@ -60,6 +76,29 @@ def build_cli():
     if not os.path.exists(CLI_BIN):
         raise ToolError("grex binary missing")
     return CLI_BIN
+
+
+PY_DIR = os.path.join(OUT, "py")
+
+
+def build_py():
+    """the Python extension module, built from /repo's working tree with --features python"""
+    tdir = os.path.join(OUT, "target_py")
+    sh(["cargo", "build", "--release", "--offline", "--lib", "--features", "python", "--manifest-path", "/repo/Cargo.toml",
+        "--target-dir", tdir], timeout=1500, cwd=OUT)
+    so = os.path.join(tdir, "release", "libgrex.so")
+    if not os.path.exists(so):
+        raise ToolError("python extension missing")
+    os.makedirs(PY_DIR, exist_ok=True)
+    shutil.copy(so, os.path.join(PY_DIR, "grex.so"))
+    return PY_DIR
+
+
+def run_py_driver(scen, res):
+    p = sh(["python3", os.path.join(ROOT, "drivers", "py_driver.py"), scen, res], env={"PYTHONPATH": build_py()},
+           timeout=3000, check=False)
+    if p.returncode != 0 or not os.path.exists(res):
+        raise ToolError("python driver failed: %s" % (p.stdout or "")[-2000:])
 
 
 # ----------------------------------------------------------------------------------------------
@@ -148,7 +187,19 @@ def gen_traces(driver, tier, seed, tag, shards=None):
         cmd = [GV, "gen-front", "--kind", kind, "--tier", tier, "--seed", str(seed), "--out", d, "--shards", str(shards)]
         if kind == "cli":
             cmd += ["--cli-bin", build_cli()]
+        if kind == "py":
+            sh([GV, "gen-front", "--kind", "py-plan", "--tier", tier, "--seed", str(seed), "--out", d], timeout=3000)
+            run_py_driver(os.path.join(d, "py_scen.json"), os.path.join(d, "py_res.json"))
+            cmd = [GV, "gen-front", "--kind", "py-merge", "--tier", tier, "--seed", str(seed), "--out", d, "--shards", str(shards)]
         if kind.startswith("replay="):
+            planf = kind.split("=", 1)[1]
+            entry = json.loads(open(planf).read().splitlines()[0])
+            if entry.get("kind") == "hist-py":
+                scen, resf = os.path.join(d, "one_scen.json"), os.path.join(d, "one_res.json")
+                json.dump([entry["plan"]], open(scen, "w"))
+                run_py_driver(scen, resf)
+                entry["results"] = json.load(open(resf))[0]
+                open(planf, "w").write(json.dumps(entry) + "\n")
             cmd = [GV, "gen-front", "--kind", "replay", "--plan", kind.split("=", 1)[1], "--out", d, "--shards", "1",
                    "--cli-bin", build_cli()]
         sh(cmd, timeout=3000)
